@@ -197,6 +197,121 @@ pub fn run_case(c: &SCase, stats: &mut Stats) -> Result<(), (String, String)> {
         }
     }
     staked_settings_cells(&w, stats)?;
+    add_bank_permissionless_cells(&w, stats)?;
+    Ok(())
+}
+
+/// `lending_pool_add_bank_permissionless` (anyone may create a staked-collateral bank for a single-validator pool):
+/// the three pool accounts must belong together and to the single-pool program, and the settings to this group.
+/// A fresh pool C is fabricated; the consistent request must be accepted (positive control), every request with one
+/// account of pool B / an ordinary mint / a look-alike pool account / another group's settings in its place refused.
+fn add_bank_permissionless_cells(w: &World, stats: &mut Stats) -> Result<(), (String, String)> {
+    use anchor_lang::{InstructionData, ToAccountMetas};
+    let sp_id = marginfi::constants::SPL_SINGLE_POOL_ID;
+    let mut vm: Vm = w.vm.clone();
+    let pool_c = kp("c08b_stake_pool_c", 0);
+    vm.set(pool_c, crate::svm::Acct { lamports: 1_000_000_000, data: vec![0u8; 64], owner: sp_id, executable: false });
+    let mint_c = Pubkey::find_program_address(&[b"mint", pool_c.as_ref()], &sp_id).0;
+    let sol_c = Pubkey::find_program_address(&[b"stake", pool_c.as_ref()], &sp_id).0;
+    vm.set(mint_c, lst_mint_acct(5_000_000_000_000));
+    vm.set(sol_c, stake_acct(6_000_000_000_000));
+    // a look-alike "pool" that the single-pool program does not own
+    let fake_pool = kp("c08b_fake_pool", 0);
+    vm.set(fake_pool, crate::svm::Acct { lamports: 1_000_000_000, data: vec![0u8; 64], owner: solana_program::system_program::ID, executable: false });
+    let fake_mint = Pubkey::find_program_address(&[b"mint", fake_pool.as_ref()], &sp_id).0;
+    let fake_sol = Pubkey::find_program_address(&[b"stake", fake_pool.as_ref()], &sp_id).0;
+    vm.set(fake_mint, lst_mint_acct(5_000_000_000_000));
+    vm.set(fake_sol, stake_acct(6_000_000_000_000));
+    let b = 2usize;
+    let (mint_b, sol_b) = (w.banks[b].oracle_extra[0], w.banks[b].oracle_extra[1]);
+    let pool_b = kp("stake_pool", b as u64);
+    let feed = w.banks[1].oracle_key;
+    let settings = w.staked_settings_key();
+    let payer = w.roles.stranger;
+    let seed = 77u64;
+    let mk = |group: Pubkey, st: Pubkey, mint: Pubkey, sol_pool: Pubkey, stake_pool: Pubkey, obs: [Pubkey; 3]| {
+        let bank = Pubkey::find_program_address(&[group.as_ref(), mint.as_ref(), &seed.to_le_bytes()], &marginfi::ID).0;
+        let mut m = marginfi::accounts::LendingPoolAddBankPermissionless {
+            marginfi_group: group,
+            staked_settings: st,
+            fee_payer: payer,
+            bank_mint: mint,
+            sol_pool,
+            stake_pool,
+            bank,
+            liquidity_vault_authority: bank_pda("liquidity_vault_auth", &bank),
+            liquidity_vault: bank_pda("liquidity_vault", &bank),
+            insurance_vault_authority: bank_pda("insurance_vault_auth", &bank),
+            insurance_vault: bank_pda("insurance_vault", &bank),
+            fee_vault_authority: bank_pda("fee_vault_auth", &bank),
+            fee_vault: bank_pda("fee_vault", &bank),
+            token_program: spl_token::ID,
+            system_program: solana_program::system_program::ID,
+        }
+        .to_account_metas(Some(true));
+        for k in obs {
+            m.push(AccountMeta::new_readonly(k, false));
+        }
+        (Instruction { program_id: marginfi::ID, accounts: m, data: marginfi::instruction::LendingPoolAddBankPermissionless { bank_seed: seed }.data() }, bank)
+    };
+    // positive control
+    {
+        let mut probe = vm.clone();
+        let (ix, _) = mk(w.group, settings, mint_c, sol_c, pool_c, [feed, mint_c, sol_c]);
+        if probe.exec(&ix).is_err() {
+            return Ok(());
+        }
+        stats.baseline_ok.push("add_bank_permissionless");
+    }
+    // a foreign group's settings account
+    let g2 = kp("c08b_foreign_group", 1);
+    let owner = w.users[2].auth;
+    let st2 = Pubkey::find_program_address(&[b"staked_settings", g2.as_ref()], &marginfi::ID).0;
+    let init_group = Instruction {
+        program_id: marginfi::ID,
+        accounts: marginfi::accounts::MarginfiGroupInitialize { marginfi_group: g2, admin: owner, fee_state: w.fee_state, system_program: solana_program::system_program::ID }.to_account_metas(Some(true)),
+        data: marginfi::instruction::MarginfiGroupInitialize {}.data(),
+    };
+    let init_settings = Instruction {
+        program_id: marginfi::ID,
+        accounts: marginfi::accounts::InitStakedSettings { marginfi_group: g2, admin: owner, fee_payer: owner, staked_settings: st2, system_program: solana_program::system_program::ID }.to_account_metas(Some(true)),
+        data: marginfi::instruction::InitStakedSettings {
+            settings: marginfi::instructions::marginfi_group::StakedSettingsConfig {
+                oracle: feed,
+                asset_weight_init: w_mill(999_000),
+                asset_weight_maint: w_mill(1_000_000),
+                deposit_limit: u64::MAX / 2,
+                total_asset_value_init_limit: 0,
+                oracle_max_age: 100,
+                risk_tier: marginfi_type_crate::types::RiskTier::Collateral,
+            },
+        }
+        .data(),
+    };
+    let foreign_ok = vm.exec(&init_group).is_ok() && vm.exec(&init_settings).is_ok();
+    let mut cells: Vec<(&'static str, Instruction, Pubkey)> = vec![];
+    let mut push = |name: &'static str, t: (Instruction, Pubkey)| cells.push((name, t.0, t.1));
+    push("sol-pool-of-another-pool", mk(w.group, settings, mint_c, sol_b, pool_c, [feed, mint_c, sol_b]));
+    push("stake-pool-of-another-pool", mk(w.group, settings, mint_c, sol_c, pool_b, [feed, mint_c, sol_c]));
+    push("mint-of-another-pool", mk(w.group, settings, mint_b, sol_c, pool_c, [feed, mint_b, sol_c]));
+    push("ordinary-mint", mk(w.group, settings, w.banks[0].mint, sol_c, pool_c, [feed, w.banks[0].mint, sol_c]));
+    push("pool-not-owned-by-the-single-pool-program", mk(w.group, settings, fake_mint, fake_sol, fake_pool, [feed, fake_mint, fake_sol]));
+    push("observation-accounts-of-another-pool", mk(w.group, settings, mint_c, sol_c, pool_c, [feed, mint_b, sol_b]));
+    push("observation-feed-of-another-bank", mk(w.group, settings, mint_c, sol_c, pool_c, [w.banks[0].oracle_key, mint_c, sol_c]));
+    if foreign_ok {
+        push("settings-of-another-group", mk(w.group, st2, mint_c, sol_c, pool_c, [feed, mint_c, sol_c]));
+    }
+    for (name, ix, bank) in cells {
+        // the SOL bank's feed and the staked feed may be the same account in some worlds: skip a no-op substitution
+        if name == "observation-feed-of-another-bank" && w.banks[0].oracle_key == feed {
+            continue;
+        }
+        let mut probe = vm.clone();
+        stats.cells += 1;
+        if probe.exec(&ix).is_ok() || probe.get(&bank).is_some() {
+            return Err((format!("auth:substitution:add_bank_permissionless:{name}"), format!("lending_pool_add_bank_permissionless created a staked-collateral bank although its accounts do not belong together ({name})")));
+        }
+    }
     Ok(())
 }
 
